@@ -238,7 +238,13 @@ let libm_call (fn : string) (args : M.f64 list) : M.f64 =
       let p = Unix.open_process (vrun ^ " --libm") in libm_proc := Some p; p in
   let hex v = Z.format "%016x" (to_zn (M.bits_of_f64 v)) in
   output_string oc (fn ^ " " ^ String.concat " " (List.map hex args) ^ "\n"); flush oc;
-  f64_of_hex (String.trim (input_line ic))
+  let ans = String.trim (input_line ic) in
+  (* VMODEL_LIBMLOG=<file>: append every libm request and Go's answer (used to record finite libm tables for Coq replays) *)
+  (match Sys.getenv_opt "VMODEL_LIBMLOG" with
+   | Some f -> let lc = open_out_gen [Open_append; Open_creat] 0o644 f in
+     output_string lc (fn ^ " " ^ String.concat " " (List.map hex args) ^ " -> " ^ ans ^ "\n"); close_out lc
+   | None -> ());
+  f64_of_hex ans
 let the_libm : M.libm =
   { M.l_log = (fun x -> libm_call "log" [x]); M.l_exp = (fun x -> libm_call "exp" [x]); M.l_exp2 = (fun x -> libm_call "exp2" [x]);
     M.l_log2 = (fun x -> libm_call "log2" [x]); M.l_pow = (fun x y -> libm_call "pow" [x; y]); M.l_cbrt = (fun x -> libm_call "cbrt" [x]);
@@ -594,6 +600,39 @@ let rec exec (toks : string list) (side : string list) (impl_result : string) : 
         (match r with M.ROk v -> go (fstr_v v :: acc) tl | M.RErr e -> "err " ^ err_name e | M.RPanic -> "panic") in
     go [] qvs
   | ["kobs"; k] -> let (g, s) = get_sk k in kobs_line g s side
+  (* ----- C17 lockstep: every AddWithCount call of changeStoreMapping, from the float-level model (Sketch/ChangeMappingG.v)
+     over the bit-exact mappings of Mapping/Glue.v; the calls of each side as a sorted multiset ----- *)
+  | ["kchtrace"; k; spec; sc] ->
+    let (g, s) = get_sk k in
+    let scale = f64_of_hex sc in
+    (match model_mapping spec with
+     | Error e -> e
+     | Ok m2 ->
+       let id1 = s.M.sk_map in
+       let kind1 = (match Z.to_int (to_zn id1.M.mk_kind) with 0 -> M.MLog | 1 -> M.MLin | 3 -> M.MCub | _ -> raise Unsupported) in
+       (match M.with_gamma the_libm kind1 id1.M.mk_gamma id1.M.mk_off with
+        | None -> raise Unsupported
+        | Some m1 ->
+          let md = map_diff m2 side in
+          if M.cmf_shortcut (M.map_equals id1 (mapid_of m2)) scale then "copy" ^ md else
+          let bins st = (match M.st_foreach st with
+              | None -> raise Unsupported
+              | Some (st', l) ->
+                List.iter (fun (_, w) -> if not (M.exactb w) then raise Unsupported) l;      (* weights must be float64 values *)
+                (st', List.map (fun (i, w) -> (i, M.q2f w)) l)) in
+          let (p', pl) = bins s.M.sk_pos in
+          let (n', nl) = bins s.M.sk_neg in
+          g.sk <- Some (M.with_stores s p' n');
+          let calls (l : (M.z * M.f64) list) : string =
+            if l = [] then "-" else
+            let key (i, w) = (to_z i, M.f_is_nan w, to_zn (M.bits_of_f64 w)) in
+            let cmp a b = let (i1, n1, b1) = key a and (i2, n2, b2) = key b in
+              let c = Z.compare i1 i2 in if c <> 0 then c else
+              if n1 <> n2 then (if n1 then 1 else -1) else if n1 then 0 else Z.compare b1 b2 in
+            String.concat "," (List.map (fun (i, w) -> Z.to_string (to_z i) ^ ":" ^ xstr w) (List.stable_sort cmp l)) in
+          (match M.cmf_sketch the_libm m1 m2 scale pl nl with
+           | None -> "model-out-of-fuel" ^ md
+           | Some (pa, na) -> "pos=" ^ calls pa ^ " neg=" ^ calls na ^ md)))
   | ["kforeach"; k; n] ->
     let (g, s) = get_sk k in
     absorb_vals g side;
@@ -712,7 +751,7 @@ let () =
             let (side, impl) = chunk [] in
             let readonly = List.mem (List.hd toks) ["ktoproto"; "kstream"; "toproto"; "pstream"; "layout"; "ksum"; "kacc"; "mnew";
                                                      "midx"; "mval"; "mlow"; "macc"; "mrange"; "meq"; "menc"; "mproto"; "mstream"; "pobs"; "kpobs"; "mpobs";
-                                                     "pmarshal"; "kpmarshal"; "mpmarshal"; "tobs"; "tobsx"; "protomk"; "kpmk"; "mpmk"] in
+                                                     "pmarshal"; "kpmarshal"; "mpmarshal"; "tobs"; "tobsx"; "protomk"; "kpmk"; "mpmk"; "kchtrace"] in
             let poison () =
               if not readonly then
               List.iter (fun t ->
